@@ -37,10 +37,17 @@ def try_native(u, fl, rec):
         if argv is None:
             return False, {"status": "counterexample is not an input (inductive/contract-level obligation)"}
         exe = build_native(u.replay["src"], u.replay.get("cxxflags", ()))
-        p = subprocess.run([exe] + [str(x) for x in argv], stdout=subprocess.PIPE, stderr=subprocess.STDOUT, timeout=120)
-        out = p.stdout.decode(errors="replace")[-2000:]
-        rec["replay_cmd"] = " ".join(CXX + list(u.replay.get("cxxflags", ())) + [os.path.join(VERIF, u.replay["src"]), "-o", exe]) + " && " + " ".join([exe] + [str(x) for x in argv])
-        return p.returncode == 1, {"status": "reproduced on real code" if p.returncode == 1 else "not reproduced (rc=%d)" % p.returncode, "argv": [str(x) for x in argv], "output": out}
+        runs = argv if argv and isinstance(argv[0], (list, tuple)) else [argv]
+        build = " ".join(CXX + list(u.replay.get("cxxflags", ())) + [os.path.join(VERIF, u.replay["src"]), "-o", exe])
+        tried = []
+        for av in runs:
+            p = subprocess.run([exe] + [str(x) for x in av], stdout=subprocess.PIPE, stderr=subprocess.STDOUT, timeout=600)
+            out = p.stdout.decode(errors="replace")[-2000:]
+            tried.append({"argv": [str(x) for x in av], "rc": p.returncode, "output": out})
+            if p.returncode == 1:
+                rec["replay_cmd"] = build + " && " + " ".join([exe] + [str(x) for x in av])
+                return True, {"status": "reproduced on real code", "argv": [str(x) for x in av], "output": out, "tried": tried}
+        return False, {"status": "not reproduced by the native harness", "tried": tried}
     except Exception as e:  # harness problems never turn into violations or hide them
         return False, {"status": "native replay unavailable: %s" % e}
 
